@@ -25,7 +25,17 @@ impl Serialize for Jwk {
 }
 
 impl<'de> Deserialize<'de> for Jwk {
+    /// sd-jwt-rs only ever deserializes a Jwk with `serde_json::from_value`, i.e. D = serde_json::Value.
+    /// Going through serde's visitor machinery would rebuild and drop the whole value recursively
+    /// (intractable under CBMC for values whose variant it cannot resolve), so for that D the value
+    /// is taken over as it is. Any other deserializer goes the generic way.
     fn deserialize<D: Deserializer<'de>>(d: D) -> Result<Self, D::Error> {
+        if std::any::type_name::<D>() == std::any::type_name::<Value>() {
+            // SAFETY: D is serde_json::Value (same type name, same crate instance); `d` is forgotten
+            let v: Value = unsafe { std::ptr::read(&d as *const D as *const Value) };
+            std::mem::forget(d);
+            return Jwk::from_value(v).ok_or_else(|| serde::de::Error::custom("not a JWK"));
+        }
         let v = Value::deserialize(d)?;
         Jwk::from_value(v).ok_or_else(|| serde::de::Error::custom("not a JWK"))
     }
